@@ -205,6 +205,21 @@ Proof.
   apply IH. exact H.
 Qed.
 
+(* a round is this sequence of events of the synchronisation machine: the peer's STATS packet, one Synchronize
+   iteration, one BLOCK packet per block of the peer's answers, the post-processor until its buffer is empty *)
+Lemma sround_events cfg genesis_addr team_key peer now s :
+  let s0 := recv_stats s (top_h peer) (top_cd peer) in
+  let arr := map (fun b => (b, now)) (flat_map (serve cfg peer) (snd (tick cfg s0))) in
+  sround cfg genesis_addr team_key peer now s =
+  steps cfg genesis_addr team_key s
+    (EvStats (top_h peer) (top_cd peer) :: EvTick :: map (fun bn => EvBlock (fst bn) (snd bn)) arr ++
+     repeat EvPost (length (sy_buf (recv_all cfg team_key (fst (tick cfg s0)) arr)))).
+Proof.
+  cbn zeta. unfold sround. set (s0 := recv_stats s (top_h peer) (top_cd peer)).
+  change (steps cfg genesis_addr team_key s (EvStats (top_h peer) (top_cd peer) :: ?es)) with (steps cfg genesis_addr team_key s0 es).
+  rewrite <- round_with_steps. unfold sim_round, round_with. destruct (tick cfg s0) as [s1 reqs]. reflexivity.
+Qed.
+
 Section Refine.
 Variable cfg : config.
 Variable genesis_addr team_key : N.
@@ -556,28 +571,27 @@ Qed.
 Lemma flush_nil s : sy_buf s = [] -> flush cfg genesis_addr team_key s = s.
 Proof. intros H. unfold flush. rewrite H. reflexivity. Qed.
 
-(* ---- one round of [sim] = one round of the machine ---- *)
-Lemma sim_round_ref a : AInv a ->
-  sim_round cfg genesis_addr team_key peer (recv_stats (conc a) hp cdp) ArrId [] now = conc (a_round' a).
+(* ---- one round = one round of the machine, in whatever order the answers arrive ---- *)
+Lemma round_with_ref a arr : AInv a ->
+  Permutation (map (fun b => (b, now)) (flat_map (serve cfg peer) (snd (tick cfg (conc a))))) arr ->
+  round_with cfg genesis_addr team_key (conc a) arr = conc (a_round' a).
 Proof.
-  intros HA.
-  assert (Hrs : recv_stats (conc a) hp cdp = conc a).
-  { unfold recv_stats. cbn [conc sy_diff]. rewrite N.ltb_irrefl. reflexivity. }
-  rewrite Hrs. unfold sim_round.
+  intros HA Hparr. unfold round_with.
   destruct (N.lt_ge_cases hp (aL a)) as [Hdn|HL2].
   - (* nothing left to do *)
     rewrite (a_round_done hp pbd th a Hdn).
     assert (Ht : tick cfg (conc a) = (conc a, [])).
     { unfold tick. cbn [conc sy_diff sy_node]. rewrite (nd_final (aL a) Hdn).
       destruct (N.leb_spec cdp (top_cd (apply_ext' n0 theirs))); [reflexivity|lia]. }
-    rewrite Ht. cbn [flat_map arrange app map recv_all fold_left]. apply flush_nil. reflexivity.
+    rewrite Ht in *. cbn [snd flat_map map] in Hparr. apply Permutation_nil in Hparr. subst arr.
+    cbn [fst recv_all fold_left]. apply flush_nil. reflexivity.
   - pose proof (answers_ref a HA HL2) as Hans. pose proof (tick_ref a HA HL2) as Ht. cbn zeta in *.
     set (r := a_tick_height hp pbd th (aL a) (alast a) (await a) (afw a)) in *.
     set (ws := a_window hp (snd r)) in *.
-    destruct (tick cfg (conc a)) as [s1 reqs]. injection Ht as -> ->. cbn [snd] in Hans.
-    cbn [arrange app]. rewrite Hans. rewrite map_map.
-    set (ul := match aq a with [] => [] | p :: _ => [p] end ++ ws).
-    set (f := fun i : N => (P i, now)).
+    destruct (tick cfg (conc a)) as [s1 reqs]. injection Ht as -> ->. cbn [snd] in Hans, Hparr. cbn [fst].
+    rewrite Hans in Hparr. rewrite map_map in Hparr.
+    set (ul := match aq a with [] => [] | p :: _ => [p] end ++ ws) in *.
+    set (f := fun i : N => (P i, now)) in *.
     set (s1 := mksync (nd (aL a)) hp cdp (fst (fst (fst r))) (snd (fst (fst r))) (snd (fst r)) (map ent (a_rot (aq a))) []).
     destruct HA as (HL1 & HS).
     pose proof (ath_window_bounds hp pbd th Hpbd L0 k0_pos Hreach_th (aL a) (alast a) (await a) (afw a) HL1 HL2) as Hwb.
@@ -586,12 +600,15 @@ Proof.
     { intros x Hx. unfold ul in Hx. apply in_app_or in Hx. destruct Hx as [Hx|Hx]; [|apply Hwb; exact Hx].
       destruct HS as (_ & _ & _ & HQ). cbn [snd] in HQ. destruct (aq a) as [|p q]; [destruct Hx|].
       destruct Hx as [<-|[]]. apply HQ. left. reflexivity. }
-    assert (Hpv : forall x, In x (map f ul) -> prevalidate_block cfg team_key (fst x) (snd x) = Ok tt).
-    { intros x Hx. apply in_map_iff in Hx. destruct Hx as (i & <- & Hi). cbn [f fst snd]. apply Hpre, P_in_tl; apply Hulb; exact Hi. }
-    rewrite (recv_all_ok cfg team_key (map f ul) s1 Hpv). cbn [s1 sy_buf app].
+    assert (Hel : forall z, In z arr -> exists i, 1 <= i /\ i <= hp /\ z = f i).
+    { intros z Hz. apply (Permutation_in z (Permutation_sym Hparr)) in Hz.
+      apply in_map_iff in Hz. destruct Hz as (i & <- & Hi). exists i. destruct (Hulb i Hi). repeat split; assumption. }
+    assert (Hpv : forall x, In x arr -> prevalidate_block cfg team_key (fst x) (snd x) = Ok tt).
+    { intros x Hx. destruct (Hel x Hx) as (i & Hi1 & Hi2 & ->). cbn [f fst snd]. apply Hpre, P_in_tl; assumption. }
+    rewrite (recv_all_ok cfg team_key arr s1 Hpv). cbn [s1 sy_buf app].
     rewrite flush_drain. cbn [sy_buf set_buf].
     (* the post-processor takes the blocks lowest height first *)
-    assert (Hdr : drain (length (map f ul)) (map f ul) = map f (a_batch (aq a) ws)).
+    assert (Hdr : drain (length arr) arr = map f (a_batch (aq a) ws)).
     { assert (Hbb : forall x, In x (a_batch (aq a) ws) -> 1 <= x /\ x <= hp).
       { apply batch_bounds; [apply HS|exact Hwb]. }
       assert (Hperm : Permutation ul (a_batch (aq a) ws)).
@@ -604,12 +621,12 @@ Proof.
           * destruct (aq a); cbn [a_batch]; [apply hts_sorted|apply ins_asc_sorted, hts_sorted].
           * destruct (aq a); cbn [a_batch ins_asc]; repeat constructor.
       - intros x y Hx Hy Hk.
-        assert (Hel : forall z, In z (drain (length (map f ul)) (map f ul)) -> exists i, i <= hp /\ z = f i).
-        { intros z Hz. apply (Permutation_in z (Permutation_sym (drain_perm _ (map f ul) eq_refl))) in Hz.
-          apply in_map_iff in Hz. destruct Hz as (i & <- & Hi). exists i. split; [apply Hulb; exact Hi|reflexivity]. }
-        destruct (Hel x Hx) as (i & Hi & ->). destruct (Hel y Hy) as (j & Hj & ->).
+        apply (Permutation_in x (Permutation_sym (drain_perm _ arr eq_refl))) in Hx.
+        apply (Permutation_in y (Permutation_sym (drain_perm _ arr eq_refl))) in Hy.
+        destruct (Hel x Hx) as (i & _ & Hi & ->). destruct (Hel y Hy) as (j & _ & Hj & ->).
         unfold hgt, f in Hk. cbn [fst] in Hk. rewrite !P_height in Hk by assumption. subst j. reflexivity.
       - eapply Permutation_trans; [apply Permutation_sym, drain_perm; reflexivity|].
+        eapply Permutation_trans; [apply Permutation_sym; exact Hparr|].
         apply Permutation_map. exact Hperm. }
     rewrite Hdr.
     assert (HQr : QB hp (a_rot (aq a))).
@@ -618,6 +635,20 @@ Proof.
     rewrite (post_all_ref (a_batch (aq a) ws) _ (aL a) (a_rot (aq a))); [|reflexivity|reflexivity|exact HL1|lia|exact HQr|].
     2:{ apply batch_bounds; [apply HS|exact Hwb]. }
     unfold conc, a_round. destruct (N.ltb_spec hp (aL a)); [lia|]. fold r. fold ws. reflexivity.
+Qed.
+
+Lemma recv_stats_conc a : recv_stats (conc a) hp cdp = conc a.
+Proof. unfold recv_stats. cbn [conc sy_diff]. rewrite N.ltb_irrefl. reflexivity. Qed.
+
+Lemma sim_round_round_with s : sim_round cfg genesis_addr team_key peer s ArrId [] now =
+  round_with cfg genesis_addr team_key s (map (fun b => (b, now)) (flat_map (serve cfg peer) (snd (tick cfg s)))).
+Proof. unfold sim_round, round_with. destruct (tick cfg s) as [s1 reqs]. reflexivity. Qed.
+
+(* ---- one round of [sim] (faithful network) ---- *)
+Lemma sim_round_ref a : AInv a ->
+  sim_round cfg genesis_addr team_key peer (recv_stats (conc a) hp cdp) ArrId [] now = conc (a_round' a).
+Proof.
+  intros HA. rewrite recv_stats_conc, sim_round_round_with. apply round_with_ref; [exact HA|reflexivity].
 Qed.
 
 Notation sround' := (sround cfg genesis_addr team_key peer now).
@@ -655,6 +686,29 @@ Proof.
   rewrite E. apply srounds_conc. apply a_round_AInv. apply a_init_AInv.
 Qed.
 
+(* rounds in which the answers arrive in ANY order (the post-processor sorts them) *)
+Inductive prounds : nat -> sync -> sync -> Prop :=
+| PR0 s : prounds O s s
+| PRS m s arr s' :
+    Permutation (map (fun b => (b, now)) (flat_map (serve cfg peer) (snd (tick cfg (recv_stats s hp cdp))))) arr ->
+    prounds m (round_with cfg genesis_addr team_key (recv_stats s hp cdp) arr) s' -> prounds (S m) s s'.
+
+Lemma prounds_conc m : forall a s', AInv a -> prounds m (conc a) s' -> s' = conc (a_iter' m a).
+Proof.
+  induction m as [|m IH]; intros a s' HA H; inversion H as [|? ? arr ? Hp Hr]; subst; [reflexivity|].
+  rewrite recv_stats_conc in Hp, Hr. rewrite (round_with_ref a arr HA Hp) in Hr.
+  cbn [a_iter]. apply IH; [apply a_round_AInv; exact HA|exact Hr].
+Qed.
+
+Lemma prounds_init s m s' : sy_node s = n0 -> sy_queue s = [] -> sy_buf s = [] ->
+  (sy_diff s < cdp \/ (sy_diff s = cdp /\ sy_height s = hp)) ->
+  prounds (S m) s s' -> s' = conc (a_iter' (S m) (a_init s)).
+Proof.
+  intros H1 H2 H3 H4 H. inversion H as [|? ? arr ? Hp Hr]; subst.
+  rewrite (recv_stats_init s H1 H2 H3 H4) in Hp, Hr. rewrite (round_with_ref _ arr (a_init_AInv s) Hp) in Hr.
+  cbn [a_iter]. apply prounds_conc; [apply a_round_AInv, a_init_AInv|exact Hr].
+Qed.
+
 End Now.
 
 (* ---- the node catches up ---- *)
@@ -687,6 +741,22 @@ Proof.
   - cbn [conc sy_node]. apply nd_final. exact Hd1.
   - reflexivity.
   - rewrite E1, E2. reflexivity.
+Qed.
+
+Theorem sync_fork_prounds s :
+  sy_node s = n0 -> sy_queue s = [] -> sy_buf s = [] ->
+  (sy_diff s < cdp \/ (sy_diff s = cdp /\ sy_height s = hp)) ->
+  exists bound, forall now, (forall b, In b (tl pc) -> prevalidate_block cfg team_key b now = Ok tt) ->
+    forall m s', (bound <= m)%nat -> prounds now m s s' ->
+      sy_node s' = apply_ext' n0 theirs /\ sy_buf s' = [].
+Proof.
+  intros H1 H2 H3 H4.
+  destruct (a_catches_up_stable hp pbd th Hpbd L0 k0_pos Hreach_th (a_init s) (a_init_AInv s)) as (k0' & Hk0).
+  exists (S k0'). intros now Hpre m s' Hm Hr.
+  destruct m as [|m]; [lia|].
+  rewrite (prounds_init now Hpre s m s' H1 H2 H3 H4 Hr).
+  destruct (Hk0 (S m) ltac:(lia)) as (Hd1 & _). split; [|reflexivity].
+  cbn [conc sy_node]. apply nd_final. exact Hd1.
 Qed.
 
 End Refine.
